@@ -8,6 +8,10 @@ ROOT = os.path.dirname(os.path.dirname(os.path.abspath(__file__)))
 
 
 def _load(path):
+    import sys
+    cdir = os.path.join(ROOT, "contracts")
+    if cdir not in sys.path:
+        sys.path.insert(0, cdir)
     name = "fv_contract_" + os.path.splitext(os.path.basename(path))[0]
     spec = importlib.util.spec_from_file_location(name, path)
     mod = importlib.util.module_from_spec(spec)
